@@ -6,7 +6,7 @@ S3 tie      : part A  harness/c06_harness.cpp drives the REAL CallConv::init / F
               part B  the harness runs the REAL emit_args_assignment (Builder node list + Assembler bytes); the bytes are disassembled by
                       llvm-mc, translated into the validator's language and judged by the extracted, Coq-verified validator
 S4 search   : part A  independent python ABI oracle (tools/c06_abi.py) on EVERY implementation answer, with named deviations to recognise the
-                      recorded findings by shape; clang -S as a second, external ABI oracle on a sample
+                      recorded findings by shape; clang -S as a second, external ABI oracle on the C-expressible signatures drawn per run (count in coverage: clang_oracle)
               part B  independent concrete simulator (tools/c06_shuffle.py) of the disassembled instructions on EVERY emitted sequence
 """
 import collections
@@ -704,26 +704,28 @@ def part_B_solver_full(ck, model, cmds, Ss, info, cov):
     SP-based frame): the model must emit exactly the implementation's instruction list - stack stores first, the two-group shuffle, stack loads last -
     and refuse exactly when the implementation refuses"""
     idx = []; ycmds = []
-    def inside(m):
+    def inside(m, arch, avx):
         if SH.is_intty(m["sty"]) and SH.is_intty(m["dty"]):
+            if arch == 0 and (m["sbits"] > 32 or m["dbits"] > 32): return False        # 32-bit x86: an 8-byte integer is a pair of values
             return all(l[0] == "M" or l[1] == 0 for l in (m["src"], m["dst"]))
         if SH.is_intty(m["sty"]) or SH.is_intty(m["dty"]): return False
-        if m["sbits"] != m["dbits"] or m["sbits"] not in (32, 64, 128): return False
+        if m["sbits"] != m["dbits"] or m["sbits"] not in ((32, 64, 128, 256, 512) if avx else (32, 64, 128)): return False
         if m["src"][0] == "M" and m["dst"][0] == "M": return False
         return all(l[0] == "M" or l[1] == 1 for l in (m["src"], m["dst"]))
     for i, (c, S) in enumerate(zip(cmds, Ss)):
         arch = S.get("arch")
         mvs = info[i]
-        if arch not in (1, 2) or not mvs or "dirty" not in S: continue
+        if arch not in (0, 1, 2) or not mvs or "dirty" not in S: continue
         if S["status"] != "ok" and S.get("err") != "emit:invstate": continue
         if S["sareg"] != S["sp"] or S.get("da"): continue
         if S["status"] == "ok" and S.get("asm") != "ok": continue                          # the Assembler refused an instruction (judged in part B): the byte stream is incomplete
         env, cc, args, opts, dsts = parse_S_cmd(c)
-        if opts[1] or opts[2]: continue                                                    # AVX / AVX-512 encodings: outside the model
-        if not all(inside(m) and not m["ind"] for m in mvs): continue
+        avx = bool(opts[1] or opts[2])
+        if avx and arch != 1: continue
+        if not all(inside(m, arch, avx) and not m["ind"] for m in mvs): continue
         if len(mvs) != sum(1 for d in dsts if d[0] != 0): continue
-        if all(m["src"][0] == "R" and m["dst"][0] == "R" and m["src"][1] == 0 for m in mvs): continue      # already compared by part_B_solver
-        excl = {4} if arch == 1 else {18, 31}
+        if arch != 0 and not avx and all(m["src"][0] == "R" and m["dst"][0] == "R" and m["src"][1] == 0 for m in mvs): continue      # already compared by part_B_solver
+        excl = {18, 31} if arch == 2 else {4}
         al = SH.allowed_locs(S)
         wgp = sorted(({l[2] for l in al if l[0] == "R" and l[1] == 0} | {m["src"][2] for m in mvs if m["src"][0] == "R" and m["src"][1] == 0}) - excl)
         wvec = sorted({l[2] for l in al if l[0] == "R" and l[1] == 1} | {m["src"][2] for m in mvs if m["src"][0] == "R" and m["src"][1] == 1})
@@ -731,7 +733,8 @@ def part_B_solver_full(ck, model, cmds, Ss, info, cov):
             it = SH.is_intty(m["sty"])
             return "%s %d %d %s %d %d %d" % (SH.loc_txt(m["src"]), m["sbits"] // 8, 1 if (it and m["sty"] in SH.SIGNED) else 0,
                                              SH.loc_txt(m["dst"]), m["dbits"] // 8, 1 if (it and m["dty"] in SH.SIGNED) else 0, 1 if it else 0)
-        ycmds.append("Y %d %d %s %d %s %d %s" % (0 if arch == 1 else 1, len(wgp), " ".join(map(str, wgp)), len(wvec), " ".join(map(str, wvec)), len(mvs),
+        acode = 3 if arch == 0 else 1 if arch == 2 else 2 if avx else 0
+        ycmds.append("Y %d %d %s %d %s %d %s" % (acode, len(wgp), " ".join(map(str, wgp)), len(wvec), " ".join(map(str, wvec)), len(mvs),
                                                  " ".join(var(m) for m in mvs)))
         idx.append(i)
     ry = run_lines(model, ycmds)
@@ -757,6 +760,7 @@ def part_B_solver_full(ck, model, cmds, Ss, info, cov):
                 st["instructions_compared"] += len(S["insts"])
                 kinds = {(m["src"][0], m["dst"][0], m["src"][1] if m["src"][0] == "R" else m["dst"][1] if m["dst"][0] == "R" else 0) for m in info[i]}
                 for k in kinds: st["with_%s_to_%s_group%d" % k] += 1
+                st["arch_" + y.split()[1] + " (0 x86-64, 1 aarch64, 2 x86-64 AVX, 3 x86-32)"] += 1
         else:
             st["differs"] += 1
             ck.violation("C06/solver-full/correspondence/" + cmds[i].replace(" ", "_")[:70], "full model and emit_args_assignment differ on [%s]: implementation `%s`, model `%s`" % (cmds[i], want, got),
@@ -980,6 +984,15 @@ def part_D(ck, impl, rng, cov):
                          (ov[0][1], ov[0][0], K.area_size(kind, apple, lay_impl), txt[:900], c), {"command": c, "impl": b})
             continue
         bad = K.check(cpu, kind, apple, vals, lay_abi)
+        if apple:
+            modes = [int(f[5 + 2 * i]) for i in range(cnt)]
+            ext = K.apple_imm_extension(cpu, kind, vals, modes, lay_abi)
+            st["apple_subword_immediates_extended_by_caller"] += sum(1 for i in range(cnt) if modes[i] == 0 and K.params(kind)[i][0] < 4 and lay_abi[i][0] == "x") - len(ext)
+            if ext:
+                i, where, got, want = ext[0]
+                ck.violation(P + "subword-immediate-not-extended", "Apple arm64: the immediate passed for the %d-byte parameter %d arrives in %s as %#x, the caller must "
+                             "extend it to %#x: %s  [%s]" % (K.params(kind)[i][0], i, where, got, want, txt[:700], c), {"command": c, "impl": b})
+                continue
         if not bad:
             st["all_arguments_right"] += 1; continue
         if apple and kind == 2 and not K.check(cpu, kind, apple, vals, lay_impl):
@@ -993,6 +1006,35 @@ def part_D(ck, impl, rng, cov):
                      "at the BLR parameter %d (%s) holds %#x, passed value requires %#x: %s  [%s]" % (i, where, got, want, txt[:900], c), {"command": c, "impl": b})
     cov["D_a64_invoke"] = dict(st)
     return cmds
+
+
+def source_tables(ck):
+    """translator tie: regenerate coq/gen/C06Tables.v from the source text of the tree under test (TypeId enumerators, x86 MOVSX / MOVSXD cast pairs, a64
+    extension / load switches of emit_arg_move).  Same text as the committed snapshot: its reflection lemmas were just re-checked through
+    C06_source_cast_tables.  Different text: the regenerated file alone is compiled against the (unchanged) model; a failing lemma means the model no
+    longer takes the decisions the source takes."""
+    import c06_tables as TB
+    try:
+        files = TB.generate(vlib.REPO)
+    except (TB.SourceShape, OSError, ValueError, KeyError) as e:
+        ck.violation("C06/source-tables/shape", "the translator no longer recognises the source of emit_arg_move / TypeId: %s" % e,
+                     {"broken": "tools/c06_tables.py (or a restructured source: re-derive the model tables by hand)"}, no_input=True)
+        return "translator failed: %s" % e
+    committed = os.path.join(vlib.COQ, "gen", "C06Tables.v")
+    txt = files["C06Tables.v"]
+    if os.path.exists(committed) and open(committed).read() == txt:
+        return "source tables equal the committed snapshot (lemmas checked through C06_source_cast_tables)"
+    wgen = os.path.join(ck.work, "gen_c06")
+    os.makedirs(wgen, exist_ok=True)
+    open(os.path.join(wgen, "C06Tables.v"), "w").write(txt)
+    rc, out, err = vlib.sh(["coqc", "-Q", os.path.join(vlib.COQ, "theories"), "Verif", "-Q", wgen, "VerifGen", "-w", "-all", os.path.join(wgen, "C06Tables.v")], cwd=wgen, timeout=600)
+    if rc != 0:
+        import difflib
+        d = "\n".join(list(difflib.unified_diff(open(committed).read().split("\n") if os.path.exists(committed) else [], txt.split("\n"), lineterm="", n=0))[:12])
+        ck.violation("C06/source-tables/model-disagrees", "the conversion tables in the source changed and the model's fconv no longer agrees with them (regenerated "
+                     "coq/gen/C06Tables.v fails: %s); table diff: %s" % ((out + err)[-500:], d), {"broken": "SolverFullModel.fconv vs x86/a64 emit_arg_move", "diff": d}, no_input=True)
+        return "regenerated tables differ from the snapshot and their lemmas FAIL"
+    return "regenerated tables differ from the committed snapshot (slow path): lemmas re-proved against the model"
 
 
 def cap_violations(ck, per_class=12):
@@ -1022,6 +1064,7 @@ def run(ck):
     ck.log("theorems: %d, failed: %d" % (len(obl), len([o for o in obl if not o["ok"]])))
     impl = ck.build_harness("c06", ["c06_harness.cpp"])
     model = ck.ocaml_model("Extract_CallConv.v", ["zconv.ml", "c06_driver.ml"], name="c06")
+    tables_status = source_tables(ck)
 
     if ck.replay:
         rp = json.load(open(ck.replay))
@@ -1092,6 +1135,7 @@ def run(ck):
     for o in ck.proof_failures():
         ck.violation("C06/proof/" + o["name"], "theorem %s no longer checks (%s)" % (o["name"], getattr(ck, "coq_log", "")[-800:]),
                      {"broken": "theorem " + o["name"], "file": "coq/theories/Properties/Properties_C06.v"}, no_input=True)
+    cov["source_tables (translator tie)"] = tables_status
     cov.update({
         "violations_not_listed (beyond 12 per key class)": dict(dropped),
         "evaluations": len(cmdsA) + len(cmdsB) + len(cmdsC),
@@ -1101,7 +1145,7 @@ def run(ck):
                 "FuncDetail::init succeeded and the signature has a stack argument or >= 5 arguments.  part B: distinct argument assignments (all permutations of <= 4 (quick) / 6 "
                 "(thorough) registers, every integer type pair as self move / register move / stack load / stack store, vector moves SSE/AVX/AVX-512, random incl. stack to stack "
                 "and scratch exhaustion); non-trivial = at least one instruction was emitted",
-        "samples": samplesA + samplesB,
+        "example_inputs": samplesA + samplesB,
         "programs": len(cmdsB), "disagreements_checked": cov.get("A_model_vs_impl_disagreements", 0),
         "traces_validated_against_impl": len(cmdsA) + stB.get("validated", 0) if stB else len(cmdsA),
         "unsupported": {"A_unjudged_by_oracle (no ABI table for the pair or non-C types)": cov.get("A_oracle_status", {}).get("unjudged", 0),
@@ -1113,7 +1157,7 @@ def run(ck):
                      "BaseEmitter::emit_args_assignment of /repo's working tree",
                      "theorems are about the Gallina model (FuncDetailModel.v) and the validator (ShuffleModel.v); the model is tied to the code by the differential run of this check, "
                      "the validator judges the machine code the Assembler produced for each generated assignment (disassembled by llvm-mc)",
-                     "Abi.v and tools/c06_abi.py were written by hand from the psABI / Microsoft / AAPCS64 / Apple documents (cross-checked against clang -S on a sample)",
+                     "Abi.v and tools/c06_abi.py were written by hand from the psABI / Microsoft / AAPCS64 / Apple documents (compared with clang -S on every C-expressible signature drawn for the clang stage of the run: counts under clang_oracle; proved: the model equals Abi.v under the guard, for all signatures; compared: implementation vs model vs python oracle on the generated stream)",
                      "memory cells of the shuffle are treated like registers identified by their start address; validate checks that accessed byte ranges with different starts are disjoint; "
                      "incoming argument area and SP-based destination slots are assumed disjoint (frame layout, C07)",
                      "fixes/C06-win64-oob.patch is modelled as applied; until the coordinator applies it the pinned behaviour is recognised by the oracle and listed as a known finding"],
